@@ -98,6 +98,14 @@ def add_controls(rng, spec, trial_flip=False):
             ctl.append({"kind": "tank", "tank": tk, "rel": rng.choice([">=", "<="]), "level": lvl, "target": t})
         else:
             ctl.append({"kind": "rule", "time": offgrid(), "target": t, "else": rng.random() < 0.3})
+    if pipes and rng.random() < 0.35:
+        # the clamp of the presolve pass on full AND short steps: an ordinary time control closes a pipe at an off-grid instant (the next
+        # step is the short remainder), a user-defined condition re-opens it and reports an arbitrary backtrack
+        p = rng.choice(pipes)
+        t_close = offgrid() if rng.random() < 0.75 else hyd * rng.randint(1, max(1, dur // hyd))
+        ctl.append({"kind": "simtime", "time": t_close, "target": (p, "status", 0)})
+        ctl.append({"kind": "arbback", "time": max(0, t_close - rng.choice([0, 1, hyd // 4, hyd // 2, hyd])), "target": (p, "status", 1),
+                    "mode": rng.choice(ARB_MODES), "k": rng.choice([1, 7, hyd // 2, hyd, 3 * hyd])})
     if trial_flip and pipes:
         ctl.append({"kind": "flip", "pipe": rng.choice(pipes), "from": hyd * rng.randint(0, max(0, dur // hyd))})
     spec = copy.deepcopy(spec)
@@ -164,6 +172,39 @@ def random_spec(rng, quick, trial_flip=False, odd_options=False):
     return spec
 
 
+ARB_MODES = ["zero", "step-1", "step", "step+k", "hyd-1", "hyd", "negative", "huge"]
+
+
+def _arbback_condition(wntr):
+    """a user-defined presolve condition (subclass of SimTimeCondition, so `Control` files it under presolve) that is due since `threshold`
+    while `link` has status `when_status` and reports an ARBITRARY backtrack through the documented `ControlCondition.backtrack` hook:
+    0, step-1, step, step+k, hydraulic_timestep-1, hydraulic_timestep, -k, 10**6 (step = tentative time - previous accepted time)"""
+    from wntr.network.controls import SimTimeCondition
+
+    class ArbBack(SimTimeCondition):
+        def __init__(self, model, threshold, link, when_status, mode, k):
+            super().__init__(model, ">=", threshold)
+            self._link, self._when, self._mode, self._k = link, when_status, mode, k
+
+        def requires(self):
+            r = super().requires()
+            r.add(self._link)
+            return r
+
+        def evaluate(self):
+            self._backtrack = 0
+            now, prev = self._model.sim_time, self._model._prev_sim_time
+            if now >= self._threshold and int(self._link.status) == self._when:
+                step = int(now - prev)
+                hyd = int(self._model.options.time.hydraulic_timestep)
+                self._backtrack = {"zero": 0, "step-1": step - 1, "step": step, "step+k": step + self._k, "hyd-1": hyd - 1, "hyd": hyd,
+                                   "negative": -self._k, "huge": 10 ** 6}[self._mode]
+                return True
+            return False
+
+    return ArbBack
+
+
 def build(wntr, spec):
     """fresh model from the spec (deterministic)"""
     from wntr.network.controls import (Control, Rule, ControlAction, SimTimeCondition, TimeOfDayCondition,
@@ -188,6 +229,9 @@ def build(wntr, spec):
             continue
         ln, attr, val = c["target"]
         act = ControlAction(wn.get_link(ln), attr, val)
+        if c["kind"] == "arbback":
+            wn.add_control("c%d" % i, Control(_arbback_condition(wntr)(wn, c["time"], wn.get_link(ln), 1 - val, c["mode"], c.get("k", 1)), act))
+            continue
         if c["kind"] == "simtime":
             wn.add_control("c%d" % i, Control(SimTimeCondition(wn, "=", c["time"]), act))
         elif c["kind"] == "clock":
@@ -720,7 +764,47 @@ def shape_from_source(path):
     return fields, tr_block(loop.body, 0)
 
 
-def gen_shape_lean(fields, body):
+def clamp_shape_from_source(path):
+    """the clamp of `_compute_next_timestep_and_run_presolve_controls_and_rules`: which two quantities bound a backtrack"""
+    import ast
+
+    tree = ast.parse(open(path).read())
+    fn = None
+    for node in ast.walk(tree):
+        if isinstance(node, ast.FunctionDef) and node.name == "_compute_next_timestep_and_run_presolve_controls_and_rules":
+            fn = node
+    if fn is None:
+        raise vlib.BrokenTie("_compute_next_timestep_and_run_presolve_controls_and_rules not found")
+    qty = {"self._wn.sim_time": "tentativeTime", "self._wn._prev_sim_time": "prevAcceptedTime",
+           "self._hydraulic_timestep": "hydraulicStep", "self._wn.options.time.hydraulic_timestep": "hydraulicStep"}
+    mb = [st for st in ast.walk(fn) if isinstance(st, ast.Assign) and ast.unparse(st.targets[0]) == "max_back"]
+    use = [st for st in ast.walk(fn) if isinstance(st, ast.Assign) and "max_back" in ast.unparse(st.value)
+           and ast.unparse(st.targets[0]) == "presolve_controls_to_run"]
+    if len(mb) != 1 or len(use) != 1:
+        raise vlib.BrokenTie("the presolve pass no longer has exactly one `max_back = ...` and one use of it")
+    v = mb[0].value  # max(int(A - B) - 1, 0)
+    ok = (isinstance(v, ast.Call) and ast.unparse(v.func) == "max" and len(v.args) == 2 and ast.unparse(v.args[1]) == "0")
+    inner = v.args[0] if ok else None
+    minus_one = False
+    if ok and isinstance(inner, ast.BinOp) and isinstance(inner.op, ast.Sub) and ast.unparse(inner.right) == "1":
+        minus_one, inner = True, inner.left
+    if ok and isinstance(inner, ast.Call) and ast.unparse(inner.func) == "int" and len(inner.args) == 1:
+        inner = inner.args[0]
+    if not ok:
+        raise vlib.BrokenTie("max_back is no longer `max(int(A - B) - 1, 0)`: " + ast.unparse(mb[0])[:120])
+    if isinstance(inner, ast.BinOp) and isinstance(inner.op, ast.Sub):
+        a, b = ast.unparse(inner.left), ast.unparse(inner.right)
+    else:
+        a, b = ast.unparse(inner), None
+    if a not in qty or (b is not None and b not in qty):
+        raise vlib.BrokenTie("unknown quantities in the clamp bound: " + ast.unparse(mb[0])[:120])
+    lower_zero = ast.dump(use[0].value) == _canon("[(c, min(max(b, 0), max_back)) for c, b in presolve_controls_to_run]", "eval")
+    if not lower_zero and ast.dump(use[0].value) != _canon("[(c, min(b, max_back)) for c, b in presolve_controls_to_run]", "eval"):
+        raise vlib.BrokenTie("the clamp is no longer applied as min(max(b, 0), max_back): " + ast.unparse(use[0])[:140])
+    return {"minuend": qty[a], "subtrahend": qty[b] if b else "zero", "lowerZero": lower_zero, "minusOne": minus_one}
+
+
+def gen_shape_lean(fields, body, clamp):
     b = lambda x: "true" if x else "false"
     return "\n".join([
         "-- GENERATED by harness/props/c16.py from wntr/sim/core.py (Python ast of WNTRSimulator.run_sim). Do not edit.",
@@ -734,6 +818,11 @@ def gen_shape_lean(fields, body):
         "def shape : Shape :=",
         "  { trialInit := %d, resolveInit := %s, earlyReturn := %s, returnsResults := %s, body := body }"
         % (fields["trialInit"], b(fields["resolveInit"]), b(fields["earlyReturn"]), b(fields["returnsResults"])),
+        "",
+        "/-- the clamp of the presolve pass: `max_back = max(int(minuend - subtrahend) - 1, 0)`, `min(max(b, 0), max_back)` -/",
+        "def clampShape : ClampShape :=",
+        "  { minuend := .%s, subtrahend := .%s, lowerZero := %s, minusOne := %s }"
+        % (clamp["minuend"], clamp["subtrahend"], b(clamp["lowerZero"]), b(clamp["minusOne"])),
         "",
         "end Wntr.RunLoop.Gen",
         "",
@@ -1343,7 +1432,8 @@ class C16(Check):
     def translate(self, ctx):
         fields, body = shape_from_source(os.path.join(vlib.REPO, "wntr", "sim", "core.py"))
         ctx.cov["shape_statements"] = body.count(".act") + body.count(".ite") + body.count(".raise") + body.count(".brk") + body.count(".cont")
-        vlib.write_if_changed(os.path.join(vlib.GEN, "RunLoopShape.lean"), gen_shape_lean(fields, body))
+        clamp = clamp_shape_from_source(os.path.join(vlib.REPO, "wntr", "sim", "core.py"))
+        vlib.write_if_changed(os.path.join(vlib.GEN, "RunLoopShape.lean"), gen_shape_lean(fields, body, clamp))
         defaults, nbody = newton_shape_from_source(os.path.join(vlib.REPO, "wntr", "sim", "solvers.py"))
         hshape = helper_shape_from_source(os.path.join(vlib.REPO, "wntr", "sim", "core.py"))
         vlib.write_if_changed(os.path.join(vlib.GEN, "NewtonShape.lean"), gen_newton_lean(defaults, nbody, hshape))
@@ -1449,6 +1539,11 @@ class C16(Check):
                 ctx.count("backup:" + str(case["backup"]))
                 ctx.count("solver:" + str(case.get("solver") or "newton"))
                 ctx.count("conv_err:" + str(case["conv_err"]))
+                for c in spec.get("c16_controls", []):
+                    if c["kind"] == "arbback":
+                        ctx.count("arbitrary_backtrack:" + c["mode"])
+                        if any((p[0] - p[1]) < obs["hyd"] and not p[2] for p in obs["pres"]):
+                            ctx.count("arbitrary_backtrack_with_short_step")
                 if partial:
                     ctx.count("runs_with_partial_step")
                 if resolves:
